@@ -104,10 +104,78 @@ def check(chk):
     decs = [n for n in body_walk(nts) if isinstance(n, ast.AugAssign) and src(n.target) == 'replicas_remaining' and isinstance(n.op, ast.Sub)]
     apps = [n for n in body_walk(nts) if isinstance(n, ast.Call) and src(n.func) == 'replicas.append']
     chk.judge(len(decs) == len(apps) == 2, 'C26.bound', nts, 'every NTS append decrements replicas_remaining', 'appends (%d) and decrements (%d) disagree' % (len(apps), len(decs)))
+    # the per-DC cursor: advanced while it is inside the DC's offsets and still before the current ring position; a cursor that ran off the end (index == len)
+    # is what makes the walk below start again at the DC's first token
+    chk.rule('C26.advance', 'NTS: the per-DC cursor advances while index < len(token_offsets) and token_offsets[index] < i (both bounds exact)')
+    from ..guards import normalise_atom as _na
+    from ..sem import resolve as _res
+    adv = [n for n in body_walk(nts) if isinstance(n, ast.While) and any(isinstance(x, ast.AugAssign) and src(x.target) == 'index' for x in n.body)]
+    if len(adv) != 1:
+        raise AnalysisError('NetworkTopologyStrategy.make_token_replica_map: cursor advance loop not found')
+    t_ = adv[0].test
+    conj = t_.values if isinstance(t_, ast.BoolOp) and isinstance(t_.op, ast.And) else [t_]
+    keys = []
+    for c_ in conj:
+        k_, flip_ = _na(c_)
+        keys.append((k_, flip_))
+
+    def _is_bound(c_):
+        if not (isinstance(c_, ast.Compare) and len(c_.ops) == 1):
+            return False
+        l_, r_, op_ = c_.left, c_.comparators[0], c_.ops[0]
+        if isinstance(op_, ast.Gt):
+            l_, r_, op_ = r_, l_, ast.Lt()
+        if isinstance(r_, ast.Name):
+            # a name assigned once, in the same block, before the loop
+            from ..core import parent as _par
+            blk = _par(adv[0])
+            body_ = [b for fld in ('body', 'orelse') for b in getattr(blk, fld, []) or []]
+            ds = [x for x in body_walk(nts) if isinstance(x, ast.Assign) and any(src(t) == r_.id for t in x.targets)]
+            if len(ds) == 1 and ds[0] in body_ and adv[0] in body_ and body_.index(ds[0]) < body_.index(adv[0]):
+                r_ = ds[0].value
+        return isinstance(op_, ast.Lt) and src(l_) == 'index' and src(r_) == 'len(token_offsets)'
+
+    def _is_before(c_):
+        if not (isinstance(c_, ast.Compare) and len(c_.ops) == 1):
+            return False
+        l_, r_, op_ = c_.left, c_.comparators[0], c_.ops[0]
+        if isinstance(op_, ast.Gt):
+            l_, r_, op_ = r_, l_, ast.Lt()
+        return isinstance(op_, ast.Lt) and src(l_) == 'token_offsets[index]' and src(r_) == 'i'
+    okadv = len(conj) == 2 and _is_bound(conj[0]) and _is_before(conj[1]) and [src(x) for x in adv[0].body] == ['index += 1']
+    chk.judge(okadv, 'C26.advance', adv[0], 'while index < len(token_offsets) and token_offsets[index] < i: index += 1',
+              'the cursor advance is `%s`: for ring positions after a datacenter\'s last token the cursor must reach len(token_offsets) so that the walk wraps to the DC\'s first token; '
+              'stopping one short (or comparing with <=) starts the walk at the wrong token and picks the wrong replicas in that DC' % src(t_))
     gr = meta.func('TokenMap.get_replicas')
     s = src(gr)
-    chk.judge('point = bisect_left(self.ring, token)' in s and 'if point == len(self.ring)' in s and 'tokens_to_hosts[self.ring[0]]' in s and 'tokens_to_hosts[self.ring[point]]' in s,
-              'C26.lookup', gr, 'bisect_left; past the last token wraps to ring[0]', 'replica lookup no longer uses the first token at or after the key, wrapping around')
+    # decided on the paths: the index is bisect_left(ring, token); at the end of the ring (index == len(ring)) entry 0 is used, otherwise the entry at the index
+    ggr = CFG(gr)
+
+    def _step(n, c):
+        if n.kind == 'stmt' and isinstance(n.ast, ast.Assign) and len(n.ast.targets) == 1 and src(n.ast.targets[0]) == 'point':
+            v = src(n.ast.value)
+            return 'raw' if v == 'bisect_left(self.ring, token)' else ('zero' if v == '0' else 'other')
+        return c
+    flg = Flow(ggr, 'none', _step)
+    lookups = []
+    for n in ggr.stmt_nodes():
+        if n.kind == 'return' and n.ast.value is not None:
+            for x in ast.walk(n.ast.value):
+                if isinstance(x, ast.Subscript) and src(x.value) == 'tokens_to_hosts' and isinstance(x.slice, ast.Subscript) and src(x.slice.value) == 'self.ring':
+                    lookups.append((n, src(x.slice.slice)))
+    ok_l = bool(lookups)
+    for n, idx in lookups:
+        for fa, c in flg.at(n):
+            at_end = fa.knows('point == len(self.ring)')
+            if idx == '0':
+                ok_l = ok_l and at_end is True
+            elif idx == 'point':
+                ok_l = ok_l and ((c == 'raw' and at_end is False) or c == 'zero')
+            else:
+                ok_l = False
+    zeros = [n for n in ggr.stmt_nodes() if n.kind == 'stmt' and isinstance(n.ast, ast.Assign) and src(n.ast.targets[0]) == 'point' and src(n.ast.value) == '0']
+    ok_l = ok_l and all(fa.knows('point == len(self.ring)') is True and c == 'raw' for n in zeros for fa, c in flg.at(n))
+    chk.judge(ok_l, 'C26.lookup', gr, 'bisect_left; past the last token wraps to ring[0]', 'replica lookup no longer uses the first token at or after the key, wrapping around')
     mg = meta.func('Metadata.get_replicas')
     calls = [n for n in body_walk(mg) if isinstance(n, ast.Call) and isinstance(n.func, ast.Attribute) and n.func.attr == 'get_replicas']
     good = len(calls) == 1 and len(calls[0].args) == 2 and src(calls[0].args[0]) == 'keyspace' and isinstance(calls[0].args[1], ast.Call) \
